@@ -228,7 +228,7 @@ func evalGuard(r *core.Run, id, fnName string, sel effSel, clauses []clause, min
 		return
 	}
 	sites := selectEffects(r, fn, sel)
-	if len(sites) < min {
+	if len(sites) < min && !(r.HasTransparent() && len(sites) > 0) {
 		r.Undecide(id, core.Key(id, fnName, "effects"), r.P.FuncPos(fn), fmt.Sprintf("vacuous: rule expects at least %d effect sites in %s, found %d (callee renamed or effect removed): the rule cannot be evaluated", min, fnName, len(sites)))
 		return
 	}
